@@ -11,8 +11,11 @@ from drivers import _httpgate_util as U
 
 META = {
     "engine": "httpgate",
-    "text": "TLC enumerates every configuration vector (12 switches, 9216 configurations; quick tier: the 1152-configuration "
-            "slice auth on / maxResp=maxExt / proof=intro, 8 route kinds) x every applicable route kind "
+    "text": "TLC enumerates every configuration vector (12 capability switches, 9216 configurations, each built in an "
+            "environment -- URL prefix, CORS, human-facing pages -- tied to the switches so that every (environment, "
+            "switch) pair takes all value combinations, proved by TLC; quick tier: the 1152-configuration slice auth on / "
+            "maxResp=maxExt / proof=intro, 9 route kinds) x every applicable route kind (thorough: 25, incl. an "
+            "authenticator crash -> 500, authority outage -> 503, CORS preflight, a path outside the prefix) "
             "with the header set the capability table demands; the driver builds one real app per configuration with "
             "make_wsgi_app (concrete limits/TTL/echo names drawn per configuration), issues a real request of every "
             "route kind (success, RPC error, 400, 401, 404 method, 404 page, 405, 413, 415, stream init/continuation, "
